@@ -68,6 +68,7 @@ static const char *envvals[] = { "dflt", "default", "no_forced_efficiency", "for
 #define NENV 12
 static unsigned long st_env, st_env_switch, st_rank_episodes, st_sweep[NENV][2] /* [value][ranked?] after a sweep re-rank, nr >= 2 */,
   st_rk_forced_distinct, st_rk_forced_ties, st_rk_forced_partial, st_rk_forced_none, st_rk_override, st_rk_restrict;
+static unsigned long st_rawset, st_rawswap, st_rawrank, st_raw_negative_forced;
 static int last_ranked = -1;   /* last observation: -1 fewer than two kinds, 0 all efficiencies -1, 1 ranked */
 
 /* allowed cpuset strictly inside the root cpuset? */
@@ -340,6 +341,30 @@ static void exec_line(const char *orig) {
   }
   fprintf(fops, "%s\n", eff);
   fflush(fops);
+  if (!strcmp(op, "rawset") || !strcmp(op, "rawswap") || !strcmp(op, "rawrank")) {
+    /* A7: arrays no history reaches.  rawset <idx> <forced> <eff> overwrites forced_efficiency / efficiency of one slot,
+     * rawswap <i> <j> exchanges two slots (private writes), rawrank calls hwloc_internal_cpukinds_rank directly. */
+    unsigned nr = T->nr_cpukinds;
+    int ok = 1;
+    if (!strcmp(op, "rawset")) {
+      if (nt < 4) { fprintf(fout, "bad-op\n"); return; }
+      unsigned idx = (unsigned) strtoul(tok[1], NULL, 10);
+      if (idx < nr) { T->cpukinds[idx].forced_efficiency = atoi(tok[2]); T->cpukinds[idx].efficiency = atoi(tok[3]); st_rawset++; }
+      else ok = 0;
+    } else if (!strcmp(op, "rawswap")) {
+      if (nt < 3) { fprintf(fout, "bad-op\n"); return; }
+      unsigned i = (unsigned) strtoul(tok[1], NULL, 10), j = (unsigned) strtoul(tok[2], NULL, 10);
+      if (i < nr && j < nr) {
+        struct hwloc_internal_cpukind_s tmp = T->cpukinds[i]; T->cpukinds[i] = T->cpukinds[j]; T->cpukinds[j] = tmp; st_rawswap++;
+      } else ok = 0;
+    } else {
+      hwloc_internal_cpukinds_rank(T);
+      st_rawrank++;
+    }
+    fprintf(fout, "rc=%s ", ok ? "ok" : "ENOENT");
+    show_obs();
+    return;
+  }
   if (!strcmp(op, "restrict")) {
     hwloc_bitmap_t s = parseset(tok[1]);
     int before = hwloc_cpukinds_get_nr(T, 0);
@@ -676,6 +701,26 @@ static void gen_rank_episode(unsigned npu) {
     exec_line(line);
     st_rk_override++;
   }
+  /* leave the reachable states: permute the array, plant forced efficiencies no public call stores (negative other than
+   * -1: ranked by their uint64_t cast) and stale efficiencies, rank directly */
+  if (rng_chance(35)) {
+    /* negative values stay above -1000000000: hwloc__xml_export_cpukinds prints into char tmp[11] and truncates 11-character
+     * values (latent, unreachable through the public API; corpus/cpukinds.findings/xml-export-forced-below-minus-1e9.txt) */
+    static const int rawf[] = { -7, -999999999, -2, 5, 2147483647, -1, 0, 12, 1 };
+    static const int rawe[] = { -1, 0, 3, 99, -5 };
+    unsigned n = 1 + rng_below(4);
+    for (unsigned i = 0; i < n; i++) {
+      int nr = hwloc_cpukinds_get_nr(T, 0);
+      if (rng_chance(40)) sprintf(line, "rawswap %u %u", rng_below(nr + 1), rng_below(nr + 1));
+      else {
+        int f = rawf[rng_below(9)];
+        if (f < -1) st_raw_negative_forced++;
+        sprintf(line, "rawset %u %d %d", rng_below(nr + 1), f, rawe[rng_below(5)]);
+      }
+      exec_line(line);
+    }
+    if (rng_chance(50)) exec_line("rawrank");
+  }
   gen_sweep(NENV);
   if (rng_chance(50)) {           /* drop one kind (re-ranked by restrict under the value in force), then a short sweep */
     int nr = hwloc_cpukinds_get_nr(T, 0);
@@ -815,7 +860,7 @@ int main(int argc, char **argv) {
     S(dup_strict); S(xml_strict); S(obs_strict_with_kinds); S(by_disallowed_idx);
     for (int i = 0; i < 6; i++) fprintf(fs, "nr_%d%s %lu\n", i, i == 5 ? "plus" : "", st_nr[i]);
     S(env); S(env_switch); S(rank_episodes); S(rk_forced_distinct); S(rk_forced_ties); S(rk_forced_partial); S(rk_forced_none);
-    S(rk_override); S(rk_restrict);
+    S(rk_override); S(rk_restrict); S(rawset); S(rawswap); S(rawrank); S(raw_negative_forced);
     for (int i = 0; i < NENV; i++) {
       fprintf(fs, "sweep_%s_ranked %lu\n", envvals[i], st_sweep[i][1]);
       fprintf(fs, "sweep_%s_unranked %lu\n", envvals[i], st_sweep[i][0]);
